@@ -8,22 +8,22 @@ import (
 	"github.com/tonistiigi/fsutil/zz_verif/v"
 )
 
-type sinkWriter struct{ data []byte }
+type vh_sinkWriter struct{ data []byte }
 
-func (w *sinkWriter) Write(p []byte) (int, error) {
+func (w *vh_sinkWriter) Write(p []byte) (int, error) {
 	w.data = append(w.data, p...)
 	return len(p), nil
 }
 
 // fragReader hands out the stream in arbitrary fragments: every call returns between 1 and
 // min(len(p), remaining) bytes, the count being a solver-chosen value.
-type fragReader struct {
+type vh_fragReader struct {
 	data  []byte
 	pos   int
 	whole bool // hand out as much as fits in one call instead of a solver-chosen fragment
 }
 
-func (r *fragReader) Read(p []byte) (int, error) {
+func (r *vh_fragReader) Read(p []byte) (int, error) {
 	rem := len(r.data) - r.pos
 	if rem == 0 {
 		return 0, io.EOF
@@ -44,14 +44,14 @@ func (r *fragReader) Read(p []byte) (int, error) {
 	return n, nil
 }
 
-func small32(x uint32) bool { return x < 0x80 || x >= 1<<28 }
+func vh_small32(x uint32) bool { return x < 0x80 || x >= 1<<28 }
 
-func symPacket(tag string, d int, withID bool) *types.Packet {
+func vh_symPacket(tag string, d int, withID bool) *types.Packet {
 	p := &types.Packet{Type: types.Packet_PacketType(v.U8(tag + ".type"))}
 	v.Assume(p.Type < 8)
 	if withID {
 		p.ID = v.U32(tag + ".id")
-		v.Assume(small32(p.ID))
+		v.Assume(vh_small32(p.ID))
 	}
 	if d > 0 {
 		p.Data = v.Bytes(tag+".data", d)
@@ -65,12 +65,12 @@ func symPacket(tag string, d int, withID bool) *types.Packet {
 func VH_C20_framing() {
 	d1, d2 := v.Param("D1", 1), v.Param("D2", 0)
 	idMode := v.Param("ID", 0) // 1: symbolic id on the first packet, 2: on both
-	p1, p2 := symPacket("p1", d1, idMode >= 1), symPacket("p2", d2, idMode >= 2)
-	w := &sinkWriter{}
+	p1, p2 := vh_symPacket("p1", d1, idMode >= 1), vh_symPacket("p2", d2, idMode >= 2)
+	w := &vh_sinkWriter{}
 	tx := NewProtoStream(context.Background(), nil, w)
 	v.Assert(tx.SendMsg(p1) == nil && tx.SendMsg(p2) == nil, "SendMsg succeeds")
 	v.Observe("stream", w.data)
-	rx := NewProtoStream(context.Background(), &fragReader{data: w.data}, nil)
+	rx := NewProtoStream(context.Background(), &vh_fragReader{data: w.data}, nil)
 	var q1, q2 types.Packet
 	v.Assert(rx.RecvMsg(&q1) == nil, "first RecvMsg succeeds")
 	v.Assert(rx.RecvMsg(&q2) == nil, "second RecvMsg succeeds")
@@ -89,7 +89,7 @@ func VH_C20_framing() {
 func VH_C20_recv_arbitrary() {
 	k := v.Param("K", 2)
 	data := v.Bytes("stream", 4+k)
-	rx := NewProtoStream(context.Background(), &fragReader{data: data, whole: true}, nil)
+	rx := NewProtoStream(context.Background(), &vh_fragReader{data: data, whole: true}, nil)
 	var p types.Packet
 	err := rx.RecvMsg(&p)
 	v.Observe("ok", err == nil)
@@ -119,17 +119,17 @@ func VH_C20_framing_big() {
 	}
 	data[0], data[d-1] = v.U8("first"), v.U8("last")
 	big := &types.Packet{Type: types.PACKET_DATA, Data: data}
-	small := symPacket("s", 1, false)
+	small := vh_symPacket("s", 1, false)
 	bigFirst := v.Bool("bigFirst")
 	p1, p2 := small, big
 	if bigFirst {
 		p1, p2 = big, small
 	}
-	w := &sinkWriter{}
+	w := &vh_sinkWriter{}
 	tx := NewProtoStream(context.Background(), nil, w)
 	v.Assert(tx.SendMsg(p1) == nil && tx.SendMsg(p2) == nil, "SendMsg succeeds")
 	v.Assert(len(w.data) == 8+p1.SizeVT()+p2.SizeVT(), "the stream holds two length-prefixed frames")
-	rx := NewProtoStream(context.Background(), &fragReader{data: w.data, whole: true}, nil)
+	rx := NewProtoStream(context.Background(), &vh_fragReader{data: w.data, whole: true}, nil)
 	var q1, q2 types.Packet
 	v.Assert(rx.RecvMsg(&q1) == nil, "first RecvMsg succeeds")
 	v.Assert(rx.RecvMsg(&q2) == nil, "second RecvMsg succeeds")
